@@ -44,7 +44,7 @@ func (e *engine) Info() core.Info {
 	return core.Info{
 		Prop:  "C18",
 		Level: "exploration",
-		Rule:  "a case is one seeded execution of ExtractXML: an OSM document of <=41 elements (0-12 nodes on a quarter-integer grid, 0-8 ways sharing nodes incl. closed ways and dangling refs, 0-5 relations with node/way/relation members incl. forward references, cycles and self-reference; tags from a 3x2 alphabet; canonical or shuffled element order), a keep function (KeepTags with several maps, KeepBounds with a box straddling the grid, KeepAll), keepTags on/off, 1-8 workers, a scheduling strategy (round-robin, uniform, sticky, PCT priorities, long worker stalls, starve-one) deciding every interleaving at every lock/channel/spawn/join point, and XML or (1 in 25) PBF encoding, a reader/fault class (full reads; legal short and (0,nil) reads; I/O error at byte k of pass p; failing Seek; cancellation at scheduler step k); non-trivial = >=2 workers AND the model keeps at least one way or relation; distinct = distinct hash of (document, keep, schedule, faults) = the full event log",
+		Rule:  "a case is one seeded execution of ExtractXML: an OSM document of <=41 elements (0-12 nodes on a quarter-integer grid, 0-8 ways sharing nodes incl. closed ways and dangling refs, 0-5 relations with node/way/relation members incl. forward references, cycles and self-reference; tags from a 3x2 alphabet (one run in four: keys and values containing the character = and prefixes of one another); canonical or shuffled element order), a keep function (KeepTags with several maps, KeepBounds with a box straddling the grid, KeepAll), keepTags on/off, 1-8 workers, a scheduling strategy (round-robin, uniform, sticky, PCT priorities, long worker stalls, starve-one) deciding every interleaving at every lock/channel/spawn/join point, and XML or (1 in 25) PBF encoding, a reader/fault class (full reads; legal short and (0,nil) reads; I/O error at byte k of pass p; failing Seek; cancellation at scheduler step k); non-trivial = >=2 workers AND the model keeps at least one way or relation; distinct = distinct hash of (document, keep, schedule, faults) = the full event log",
 		Real:  []string{"osm.ExtractXML / extract (pass loop, worker pool, channel, all mutex-guarded maps, processNode/Way/Relation, hasNeed*)", "osm.ExtractPBF over the same documents written by an independent PBF writer (one run in 25; paulmach/osm osmpbf decoder incl. its own, unsimulated, decoder goroutines)", "KeepTags / KeepBounds / KeepAll", "(*Data).Check, (*Data).Filter", "paulmach/osm osmxml.Scanner and encoding/xml", "golang.org/x/sync/errgroup", "real goroutines, real sync.RWMutex/Mutex and channel (only the choice of who runs is simulated)"},
 		Stubs: []string{"the io.ReadSeeker (simulated file: chunking, (0,nil) reads, injected read error, failing Seek, pass counting)", "the context (cancelled by the scheduler at a tape-chosen step)", "the worker count (tape-chosen 1-8 instead of GOMAXPROCS)", "the Go scheduler's choice of which goroutine runs next (token passing at the verif hooks)"},
 		FaultKinds: []string{
@@ -284,19 +284,20 @@ func (f *simFile) Seek(off int64, whence int) (int64, error) {
 // ---------- the run ----------
 
 type run struct {
-	nanNode    bool
-	qlat, qlon map[int64]int // node id -> quarter-degree index
-	pbf        bool
-	t          *tape.Tape
-	log        *core.Log
-	res        *core.Result
-	d          *doc
-	ks         keepSpec
-	keepTags   bool
-	nprocs     int
-	strategy   string
-	class      int
-	trace      bool
+	tagKeys, tagVals []string
+	nanNode          bool
+	qlat, qlon       map[int64]int // node id -> quarter-degree index
+	pbf              bool
+	t                *tape.Tape
+	log              *core.Log
+	res              *core.Result
+	d                *doc
+	ks               keepSpec
+	keepTags         bool
+	nprocs           int
+	strategy         string
+	class            int
+	trace            bool
 }
 
 func (e *engine) Run(t *tape.Tape, trace bool) core.Result {
@@ -321,17 +322,36 @@ func (r *run) fail(class, detail, format string, a ...interface{}) {
 var tagKeys = []string{"a", "b", "c"}
 var tagVals = []string{"x", "y"}
 
+// keys and values that collide when glued together with "=" or compared by
+// prefix (one run in four draws its alphabet from these)
+var oddKeys = []string{"a", "a=x", "a=", "ab", "=a", "a=x=a"}
+var oddVals = []string{"x", "=x", "x=a", "a=x", "xa", "a"}
+
+func (r *run) pickAlphabet() {
+	r.tagKeys, r.tagVals = tagKeys, tagVals
+	if r.t.OneIn(4, "odd-tag-alphabet") {
+		r.res.Probe("tag-alphabet-with-=-and-prefixes")
+		r.tagKeys, r.tagVals = nil, nil
+		o := r.t.Choose(len(oddKeys), "odd-key0")
+		for i := 0; i < 3; i++ {
+			r.tagKeys = append(r.tagKeys, oddKeys[(o+i*(1+r.t.Choose(2, "odd-key-step")))%len(oddKeys)])
+		}
+		o = r.t.Choose(len(oddVals), "odd-val0")
+		r.tagVals = []string{oddVals[o], oddVals[(o+1+r.t.Choose(len(oddVals)-1, "odd-val1"))%len(oddVals)]}
+	}
+}
+
 func (r *run) genTags() []tag {
 	n := r.t.Choose(3, "ntags")
 	var out []tag
 	used := map[string]bool{}
 	for i := 0; i < n; i++ {
-		k := tagKeys[r.t.Choose(3, "tagk")]
+		k := r.tagKeys[r.t.Choose(3, "tagk")]
 		if used[k] {
 			continue
 		}
 		used[k] = true
-		out = append(out, tag{k, tagVals[r.t.Choose(2, "tagv")]})
+		out = append(out, tag{k, r.tagVals[r.t.Choose(2, "tagv")]})
 	}
 	return out
 }
@@ -492,14 +512,14 @@ func (r *run) genKeep() {
 		m := map[string][]string{}
 		n := 1 + t.Choose(2, "keep-nkeys")
 		for i := 0; i < n; i++ {
-			k := tagKeys[t.Choose(3, "keep-key")]
+			k := r.tagKeys[t.Choose(3, "keep-key")]
 			switch t.Choose(3, "keep-vals") {
 			case 0:
 				m[k] = nil // any value
 			case 1:
-				m[k] = []string{tagVals[t.Choose(2, "keep-val")]}
+				m[k] = []string{r.tagVals[t.Choose(2, "keep-val")]}
 			default:
-				m[k] = []string{"x", "y"}
+				m[k] = []string{r.tagVals[0], r.tagVals[1]}
 			}
 		}
 		r.ks = keepSpec{kind: "tags", tags: m}
@@ -524,6 +544,7 @@ func (r *run) keepFunc() gosm.KeepFunc {
 
 func (r *run) exec() {
 	t := r.t
+	r.pickAlphabet()
 	r.genDoc()
 	r.genKeep()
 	r.keepTags = t.Bool("keep-tags")
@@ -896,11 +917,11 @@ func (r *run) filterOracle(data *gosm.Data, S result) {
 		fs = keepSpec{kind: "all"}
 	} else {
 		m := map[string][]string{}
-		k := tagKeys[t.Choose(3, "filter-key")]
+		k := r.tagKeys[t.Choose(3, "filter-key")]
 		if t.Bool("filter-any") {
 			m[k] = nil
 		} else {
-			m[k] = []string{tagVals[t.Choose(2, "filter-val")]}
+			m[k] = []string{r.tagVals[t.Choose(2, "filter-val")]}
 		}
 		fs = keepSpec{kind: "tags", tags: m}
 	}
